@@ -163,7 +163,24 @@ func Vals(t reflect.Type) []reflect.Value {
 		for _, v := range ev {
 			all = reflect.Append(all, v)
 		}
-		return append(out, all)
+		out = append(out, all)
+		if HoldsContainer(t.Elem()) {
+			// a list of containers: items whose inner containers shrink (3, 2, 1:
+			// [[1,2,3],[4,5],[6]]) and items whose inner containers have the same
+			// size (2, 2, 2), all contents pairwise distinct. A decoder that reuses
+			// the storage of an earlier item for a later one is only visible on
+			// these shapes (growing inner sizes reallocate).
+			for _, sizes := range [][]int{{3, 2, 1}, {2, 2, 2}} {
+				ctr := 0
+				l := reflect.MakeSlice(t, 0, len(sizes))
+				for _, n := range sizes {
+					l = reflect.Append(l, fresh(t.Elem(), n, &ctr))
+				}
+				shaped[l.Pointer()] = true
+				out = append(out, l)
+			}
+		}
+		return out
 	case reflect.Map:
 		kv, ev := mapKeys(Vals(t.Key())), Vals(t.Elem())
 		m0 := reflect.MakeMap(t)
@@ -239,6 +256,96 @@ func Vals(t reflect.Type) []reflect.Value {
 		return []reflect.Value{reflect.Zero(t)}
 	}
 	return []reflect.Value{reflect.Zero(t)}
+}
+
+// HoldsContainer: t is a list or a map, or a struct with such a member
+// (at any depth).
+func HoldsContainer(t reflect.Type) bool {
+	if t == valueType {
+		return false
+	}
+	switch t.Kind() {
+	case reflect.Slice, reflect.Map:
+		return true
+	case reflect.Struct:
+		for i := 0; i < t.NumField(); i++ {
+			if HoldsContainer(t.Field(i).Type) {
+				return true
+			}
+		}
+	}
+	return false
+}
+
+// shaped holds the data pointers of the lists of containers built by Vals
+// (decreasing and equal inner sizes), so that the cases which carry one can be
+// counted.
+var shaped = map[uintptr]bool{}
+
+// IsShaped reports whether v is (or, for a struct, holds in a member) one of
+// the lists of containers with decreasing / equal inner sizes.
+func IsShaped(v reflect.Value) bool {
+	if !v.IsValid() || v.Type() == valueType {
+		return false
+	}
+	switch v.Kind() {
+	case reflect.Slice:
+		return v.Len() > 0 && shaped[v.Pointer()]
+	case reflect.Struct:
+		for i := 0; i < v.NumField(); i++ {
+			if IsShaped(v.Field(i)) {
+				return true
+			}
+		}
+	}
+	return false
+}
+
+// fresh builds a value of type t whose containers (at every depth) have n
+// entries and whose scalars are numbered from *ctr: two values built from the
+// same counter have pairwise distinct contents (bool: alternating).
+func fresh(t reflect.Type, n int, ctr *int) reflect.Value {
+	v := reflect.New(t).Elem()
+	next := func() int { *ctr++; return *ctr }
+	if t == valueType {
+		v.Set(reflect.ValueOf(value.Int(int32(next()))))
+		return v
+	}
+	switch t.Kind() {
+	case reflect.Bool:
+		v.SetBool(next()%2 == 1)
+	case reflect.Int, reflect.Int8, reflect.Int16, reflect.Int32, reflect.Int64:
+		v.SetInt(int64(next() % 120))
+	case reflect.Uint, reflect.Uint8, reflect.Uint16, reflect.Uint32, reflect.Uint64:
+		v.SetUint(uint64(next() % 120))
+	case reflect.Float32, reflect.Float64:
+		v.SetFloat(float64(next()) + 0.5)
+	case reflect.String:
+		v.SetString(fmt.Sprintf("v%d", next()))
+	case reflect.Slice:
+		s := reflect.MakeSlice(t, 0, n)
+		for i := 0; i < n; i++ {
+			s = reflect.Append(s, fresh(t.Elem(), n, ctr))
+		}
+		v.Set(s)
+	case reflect.Map:
+		m := reflect.MakeMap(t)
+		for try := 0; m.Len() < n && try < 4*n+4; try++ {
+			k := fresh(t.Key(), n, ctr)
+			if !hashable(k) || m.MapIndex(k).IsValid() {
+				continue
+			}
+			m.SetMapIndex(k, fresh(t.Elem(), n, ctr))
+		}
+		v.Set(m)
+	case reflect.Struct:
+		for i := 0; i < t.NumField(); i++ {
+			if v.Field(i).CanSet() {
+				v.Field(i).Set(fresh(t.Field(i).Type, n, ctr))
+			}
+		}
+	}
+	return v
 }
 
 // mapKeys drops the values that cannot be distinct, retrievable map keys:
@@ -426,6 +533,24 @@ type Result struct {
 	Violations []Violation `json:"violations"`
 	Sample     string      `json:"sample,omitempty"`
 	Skipped    string      `json:"skipped,omitempty"`
+	// value cases that carried a list of >= 3 containers with decreasing or
+	// equal inner sizes, by position: return | argument | payload | property
+	Nested map[string]int `json:"nested,omitempty"`
+	// subscriber histories executed (see histories) and emissions made in them
+	Histories     int `json:"histories,omitempty"`
+	HistoryEvents int `json:"history_events,omitempty"`
+}
+
+func (r *runner) nested(pos string, vs ...reflect.Value) {
+	for _, v := range vs {
+		if IsShaped(v) {
+			if r.res.Nested == nil {
+				r.res.Nested = map[string]int{}
+			}
+			r.res.Nested[pos]++
+			return
+		}
+	}
 }
 
 func exported(name string) bool {
@@ -542,6 +667,10 @@ func (r *runner) method(a Action) {
 			r.res.Sample = cs
 		}
 		r.res.Cases++
+		r.nested("argument", args...)
+		if want != nil {
+			r.nested("return", *want)
+		}
 		out, pmsg, to := callT(m, args)
 		if to {
 			r.fail("timeout", "", fmt.Sprintf("%s did not return within %v", cs, waitBudget), cs)
@@ -592,20 +721,6 @@ func (r *runner) method(a Action) {
 	}
 }
 
-// recvT receives from a reflect channel with a guard.
-func recvT(ch reflect.Value, d time.Duration) (reflect.Value, bool, bool) {
-	timer := time.NewTimer(d)
-	defer timer.Stop()
-	chosen, v, ok := reflect.Select([]reflect.SelectCase{
-		{Dir: reflect.SelectRecv, Chan: ch},
-		{Dir: reflect.SelectRecv, Chan: reflect.ValueOf(timer.C)},
-	})
-	if chosen == 1 {
-		return reflect.Value{}, false, true
-	}
-	return v, ok, false
-}
-
 // eventEquals compares an event with the emitted arguments: one parameter =
 // the value itself, otherwise a struct with one field per parameter.
 func eventEquals(ev reflect.Value, args []reflect.Value) bool {
@@ -650,6 +765,296 @@ func (r *runner) subscribe(name string) (cancel func(), ch reflect.Value, ok boo
 	return c, out[1], true
 }
 
+// subscriber is one subscription made through a generated Subscribe<X>. Its
+// channel is drained by a collector goroutine for as long as it is open: the
+// client's forwarding goroutine blocks on an unread event, so a subscriber that
+// stops reading would stall its own cancellation.
+type subscriber struct {
+	name   string
+	cancel func()
+	mu     sync.Mutex
+	got    []reflect.Value
+	taken  int
+	closed bool
+	wake   chan struct{}
+}
+
+func (r *runner) newSubscriber(method, name string) *subscriber {
+	cancel, ch, ok := r.subscribe(method)
+	if !ok {
+		return nil
+	}
+	s := &subscriber{name: name, cancel: cancel, wake: make(chan struct{}, 1)}
+	go func() {
+		for {
+			v, ok := ch.Recv()
+			s.mu.Lock()
+			if ok {
+				s.got = append(s.got, v)
+			} else {
+				s.closed = true
+			}
+			s.mu.Unlock()
+			select {
+			case s.wake <- struct{}{}:
+			default:
+			}
+			if !ok {
+				return
+			}
+		}
+	}()
+	return s
+}
+
+// take returns the events received since the previous take: it waits (at most
+// waitBudget) until n of them are there, then until none has arrived for quiet.
+func (s *subscriber) take(n int, quiet time.Duration) (evs []reflect.Value, closed bool) {
+	limit := time.NewTimer(waitBudget)
+	defer limit.Stop()
+wait:
+	for {
+		s.mu.Lock()
+		have, cl := len(s.got)-s.taken, s.closed
+		s.mu.Unlock()
+		if have >= n || cl {
+			break
+		}
+		select {
+		case <-s.wake:
+		case <-limit.C:
+			break wait
+		}
+	}
+	for round := 0; quiet > 0 && round < 100; round++ {
+		t := time.NewTimer(quiet)
+		select {
+		case <-s.wake:
+			t.Stop()
+			continue
+		case <-t.C:
+		}
+		break
+	}
+	s.mu.Lock()
+	defer s.mu.Unlock()
+	evs = append(evs, s.got[s.taken:]...)
+	s.taken = len(s.got)
+	return evs, s.closed
+}
+
+// stop calls the subscription's cancel function and waits for it.
+func (r *runner) stop(s *subscriber, cs string) bool {
+	if s == nil || s.cancel == nil {
+		return true
+	}
+	c := s.cancel
+	s.cancel = nil
+	done := make(chan string, 1)
+	go func() {
+		defer func() {
+			if p := recover(); p != nil {
+				done <- fmt.Sprint(p)
+			}
+		}()
+		c()
+		done <- ""
+	}()
+	select {
+	case p := <-done:
+		if p != "" {
+			r.fail("panic", p, fmt.Sprintf("%s: the cancel function of subscriber %s panicked: %s", cs, s.name, p), cs)
+			return false
+		}
+		return true
+	case <-time.After(waitBudget):
+		r.fail("timeout", "cancel", fmt.Sprintf("%s: the cancel function of subscriber %s did not return within %v", cs, s.name, waitBudget), cs)
+		return false
+	}
+}
+
+// classify compares, in order, the events a subscriber received with the
+// payloads emitted while it was subscribed (want); earlier lists the payloads
+// emitted to it before (a late copy of one of those is a duplicate, not a
+// foreign event). Every emission must arrive exactly once.
+func classify(got []reflect.Value, want, earlier [][]reflect.Value, closed bool) (failure, what string) {
+	among := func(g reflect.Value, ps [][]reflect.Value) int {
+		for j := len(ps) - 1; j >= 0; j-- {
+			if eventEquals(g, ps[j]) {
+				return j
+			}
+		}
+		return -1
+	}
+	i := 0
+	for k, g := range got {
+		if i < len(want) && eventEquals(g, want[i]) {
+			i++
+			continue
+		}
+		if j := among(g, want[:i]); j >= 0 {
+			return "event-duplicated", fmt.Sprintf("emission %d of %d %s was delivered again (event %d received: %s): more than one copy of one emission", j+1, len(want), showArgs(want[j]), k+1, show(g))
+		}
+		if j := among(g, earlier); j >= 0 {
+			return "event-duplicated", fmt.Sprintf("the earlier emission %s was delivered again (event %d received: %s): more than one copy of one emission", showArgs(earlier[j]), k+1, show(g))
+		}
+		if i < len(want) {
+			if j := among(g, want[i+1:]); j >= 0 {
+				return "event-lost", fmt.Sprintf("emission %d of %d %s never arrived (event %d received is the later emission %s)", i+1, len(want), showArgs(want[i]), k+1, show(g))
+			}
+			return "event-differs", fmt.Sprintf("emitted %s, the subscriber received %s", showArgs(want[i]), show(g))
+		}
+		return "event-differs", fmt.Sprintf("an event nobody emitted was received after the %d expected ones: %s", len(want), show(g))
+	}
+	if i < len(want) {
+		if closed {
+			return "event-channel-closed", fmt.Sprintf("the subscriber's channel was closed after %d of %d events", i, len(want))
+		}
+		return "event-lost", fmt.Sprintf("emission %d of %d %s: no event reached the subscriber within %v", i+1, len(want), showArgs(want[i]), waitBudget)
+	}
+	return "", ""
+}
+
+// quiet is how long a subscriber must stay silent after its last expected
+// event. Copies of every emission but the last are recognised by order (the
+// server sends the copies of one emission before the next emission, one
+// connection is FIFO), so the decision does not rest on this wait.
+const quiet = 40 * time.Millisecond
+
+// distinctPayloads returns up to n pairwise different payloads.
+func distinctPayloads(all [][]reflect.Value, n int) [][]reflect.Value {
+	var out [][]reflect.Value
+next:
+	for _, p := range all {
+		for _, q := range out {
+			same := true
+			for i := range p {
+				if !Equal(p[i], q[i]) {
+					same = false
+				}
+			}
+			if same {
+				continue next
+			}
+		}
+		out = append(out, p)
+		if len(out) == n {
+			break
+		}
+	}
+	return out
+}
+
+// histories drives the subscriber histories of one signal or property on the
+// one session of the driver (the main loop of the action is the history "one
+// subscriber"):
+//
+//	together    subscribe A, subscribe B, emit 3: A and B each receive every emission exactly once; cancel B, cancel A
+//	cancel-A-B  subscribe A, subscribe B, cancel A, emit: B receives it once; cancel B; subscribe C, emit 2: C receives each exactly once
+//	cancel-B-A  the same with B cancelled before A (the emission in between goes to A)
+//
+// Subscriptions to one signal made through one client share a single
+// registration on the server; who registers and who unregisters depends on the
+// order of arrival and departure.
+func (r *runner) histories(subMethod, label string, all [][]reflect.Value, emit func(args []reflect.Value, cs string) bool) {
+	ps := distinctPayloads(all, 3)
+	if len(ps) == 0 {
+		return
+	}
+	q := quiet
+	if len(ps) == 1 {
+		// indistinguishable emissions (e.g. a signal without parameters):
+		// copies are only visible as a surplus
+		q = 300 * time.Millisecond
+	}
+	p := func(i int) []reflect.Value { return ps[i%len(ps)] }
+	var live []*subscriber
+	var hist string
+	sub := func(name string) *subscriber {
+		s := r.newSubscriber(subMethod, name)
+		if s != nil {
+			live = append(live, s)
+		}
+		return s
+	}
+	stop := func(s *subscriber) bool {
+		for i, x := range live {
+			if x == s {
+				live = append(live[:i:i], live[i+1:]...)
+				break
+			}
+		}
+		return r.stop(s, label+" history "+hist)
+	}
+	emitted := map[*subscriber][][]reflect.Value{}
+	send := func(args []reflect.Value) bool {
+		r.res.HistoryEvents++
+		return emit(args, fmt.Sprintf("%s history %s: emit %s", label, hist, showArgs(args)))
+	}
+	expect := func(s *subscriber, q time.Duration, want ...[]reflect.Value) bool {
+		got, closed := s.take(len(want), q)
+		r.res.Checks += len(want)
+		f, what := classify(got, want, emitted[s], closed)
+		emitted[s] = append(emitted[s], want...)
+		if f != "" {
+			cs := fmt.Sprintf("%s history %s, subscriber %s", label, hist, s.name)
+			r.fail(f, hist+"/"+s.name, cs+": "+what, cs)
+			return false
+		}
+		return true
+	}
+	run := func(name string, body func() bool) bool {
+		hist = name
+		r.res.Histories++
+		ok := body()
+		for len(live) > 0 {
+			if !stop(live[len(live)-1]) {
+				ok = false
+			}
+		}
+		return ok
+	}
+	run("together", func() bool {
+		a, b := sub("A"), sub("B")
+		if a == nil || b == nil {
+			return false
+		}
+		for i := 0; i < 3; i++ {
+			if !send(p(i)) {
+				return false
+			}
+		}
+		okA := expect(a, q, p(0), p(1), p(2))
+		okB := expect(b, 0, p(0), p(1), p(2)) // B has been silent for as long as A
+		return okA && okB && stop(b) && stop(a)
+	})
+	leave := func(name string, firstA bool) {
+		run(name, func() bool {
+			a, b := sub("A"), sub("B")
+			if a == nil || b == nil {
+				return false
+			}
+			first, second := a, b
+			if !firstA {
+				first, second = b, a
+			}
+			if !stop(first) || !send(p(0)) || !expect(second, q, p(0)) || !stop(second) {
+				return false
+			}
+			c := sub("C")
+			if c == nil {
+				return false
+			}
+			if !send(p(1)) || !send(p(2)) {
+				return false
+			}
+			return expect(c, q, p(1), p(2)) && stop(c)
+		})
+	}
+	leave("cancel-A-B", true)
+	leave("cancel-B-A", false)
+}
+
 func (r *runner) signal(a Action) {
 	helper, ok := r.h.helpers[r.itf.Name]
 	if !ok {
@@ -661,21 +1066,38 @@ func (r *runner) signal(a Action) {
 		r.fail("helper-method-missing", a.ImplName, fmt.Sprintf("the signal helper has no method %s for IDL signal %s", a.ImplName, a.IDLName), "")
 		return
 	}
-	cancel, ch, ok := r.subscribe(a.ProxyName)
-	if !ok {
+	sub := r.newSubscriber(a.ProxyName, "A")
+	if sub == nil {
 		return
 	}
 	defer func() {
-		if cancel != nil {
-			go cancel()
+		if sub.cancel != nil {
+			go sub.cancel()
 		}
 	}()
 	var in []reflect.Type
 	for i := 0; i < em.Type().NumIn(); i++ {
 		in = append(in, em.Type().In(i))
 	}
+	emit := func(args []reflect.Value, cs string) bool {
+		out, pmsg, to := callT(em, args)
+		if to {
+			r.fail("timeout", "emit", cs+" did not return", cs)
+			return false
+		}
+		if pmsg != "" {
+			r.fail("panic", pmsg, cs+" panicked: "+pmsg, cs)
+			return false
+		}
+		if err := errOf(out); err != nil {
+			r.fail("emit-error", err.Error(), fmt.Sprintf("%s returned error %q", cs, err), cs)
+			return false
+		}
+		return true
+	}
 	tps := tuples(in)
 	const batch = 3
+	// history "one subscriber": every payload, exactly one copy of each, in order
 	for k := 0; k < len(tps); k += batch {
 		hi := k + batch
 		if hi > len(tps) {
@@ -687,37 +1109,32 @@ func (r *runner) signal(a Action) {
 				r.res.Sample = cs
 			}
 			r.res.Cases++
-			out, pmsg, to := callT(em, args)
-			if to {
-				r.fail("timeout", "emit", cs+" did not return", cs)
-				return
-			}
-			if pmsg != "" {
-				r.fail("panic", pmsg, cs+" panicked: "+pmsg, cs)
-				return
-			}
-			if err := errOf(out); err != nil {
-				r.fail("emit-error", err.Error(), fmt.Sprintf("%s returned error %q", cs, err), cs)
+			r.nested("payload", args...)
+			if !emit(args, cs) {
 				return
 			}
 		}
-		for _, args := range tps[k:hi] {
-			cs := fmt.Sprintf("%s%s", a.ImplName, showArgs(args))
-			ev, ok, to := recvT(ch, waitBudget)
-			r.res.Checks++
-			if to {
-				r.fail("event-lost", "", fmt.Sprintf("%s: no event reached the subscriber within %v", cs, waitBudget), cs)
+		last := time.Duration(0)
+		if hi == len(tps) {
+			last = quiet
+		}
+		got, closed := sub.take(hi-k, last)
+		r.res.Checks += hi - k
+		if f, what := classify(got, tps[k:hi], tps[:k], closed); f != "" {
+			cs := fmt.Sprintf("%s%s", a.ImplName, showArgs(tps[k]))
+			r.fail(f, "", fmt.Sprintf("%s (emissions %d..%d of %d, one subscriber): %s", a.ImplName, k+1, hi, len(tps), what), cs)
+			if f != "event-differs" {
 				return
-			}
-			if !ok {
-				r.fail("event-channel-closed", "", cs+": the subscriber's channel was closed", cs)
-				return
-			}
-			if !eventEquals(ev, args) {
-				r.fail("event-differs", "", fmt.Sprintf("%s: the subscriber received %s", cs, show(ev)), cs)
 			}
 		}
 	}
+	if len(r.res.Violations) > 0 {
+		return
+	}
+	if !r.stop(sub, a.ProxyName) {
+		return
+	}
+	r.histories(a.ProxyName, a.ImplName, tps, emit)
 }
 
 func (r *runner) property(a Action) {
@@ -732,18 +1149,22 @@ func (r *runner) property(a Action) {
 		return
 	}
 	t := set.Type().In(0)
-	cancel, ch, subscribed := r.subscribe("Subscribe" + a.ProxyName)
+	sub := r.newSubscriber("Subscribe"+a.ProxyName, "A")
+	subscribed := sub != nil
 	defer func() {
-		if cancel != nil {
-			go cancel()
+		if sub != nil && sub.cancel != nil {
+			go sub.cancel()
 		}
 	}()
-	for _, v := range Vals(t) {
+	vals := Vals(t)
+	var sent [][]reflect.Value
+	for _, v := range vals {
 		cs := fmt.Sprintf("Set%s(%s)", a.ProxyName, show(v))
 		if r.res.Sample == "" {
 			r.res.Sample = cs
 		}
 		r.res.Cases++
+		r.nested("property", v)
 		r.h.reset(nil)
 		out, pmsg, to := callT(set, []reflect.Value{v})
 		if to {
@@ -794,20 +1215,48 @@ func (r *runner) property(a Action) {
 			r.fail("get-differs", "", fmt.Sprintf("after %s, Get%s returned %s", cs, a.ProxyName, show(out[0])), cs)
 		}
 		if subscribed {
-			ev, ok, to := recvT(ch, waitBudget)
-			r.res.Checks++
-			switch {
-			case to:
-				r.fail("event-lost", "property", fmt.Sprintf("%s: no update reached the subscriber within %v", cs, waitBudget), cs)
-				subscribed = false
-			case !ok:
-				r.fail("event-channel-closed", "property", cs+": the subscriber's channel was closed", cs)
-				subscribed = false
-			case !Equal(ev, v):
-				r.fail("event-differs", "property", fmt.Sprintf("%s: the subscriber received %s", cs, show(ev)), cs)
+			// history "one subscriber": exactly one update per successful Set, in order
+			last := time.Duration(0)
+			if len(sent) == len(vals)-1 {
+				last = quiet
 			}
+			got, closed := sub.take(1, last)
+			r.res.Checks++
+			if f, what := classify(got, [][]reflect.Value{{v}}, sent, closed); f != "" {
+				r.fail(f, "property", fmt.Sprintf("%s (one subscriber): %s", cs, what), cs)
+				if f != "event-differs" {
+					subscribed = false
+				}
+			}
+			sent = append(sent, []reflect.Value{v})
 		}
 	}
+	if len(r.res.Violations) > 0 || sub == nil {
+		return
+	}
+	if !r.stop(sub, "Subscribe"+a.ProxyName) {
+		return
+	}
+	var all [][]reflect.Value
+	for _, v := range vals {
+		all = append(all, []reflect.Value{v})
+	}
+	r.histories("Subscribe"+a.ProxyName, "Set"+a.ProxyName, all, func(args []reflect.Value, cs string) bool {
+		out, pmsg, to := callT(set, args)
+		if to {
+			r.fail("timeout", "set", cs+" did not return", cs)
+			return false
+		}
+		if pmsg != "" {
+			r.fail("panic", pmsg, cs+" panicked: "+pmsg, cs)
+			return false
+		}
+		if err := errOf(out); err != nil {
+			r.fail("set-error", err.Error(), fmt.Sprintf("%s returned error %q", cs, err), cs)
+			return false
+		}
+		return true
+	})
 }
 
 // Main is the entry point of a generated driver.
